@@ -80,6 +80,7 @@ structure State where
   nblk : Nat
   env : Nat → Option Obj
   nextId : Nat
+  ccnt : Nat → Nat             -- constructions per object id
   dcnt : Nat → Nat             -- destructions per object id
   where_ : Nat → Option Loc    -- ghost: where the object with this id lives (none: not alive)
   err : Option String
@@ -130,7 +131,8 @@ def constructAt (s : State) (l : Loc) (val ty : Nat) (ev : Nat → Ev) : State :
   else
     let id := s.nextId
     let s := setObj s l (some ⟨id, val, ty⟩)
-    emit { s with nextId := id + 1, where_ := upd s.where_ id (some l) } (ev id)
+    emit { s with nextId := id + 1, ccnt := upd s.ccnt id (s.ccnt id + 1),
+                  where_ := upd s.where_ id (some l) } (ev id)
 
 /-- destructor call on the object at `l` -/
 def destroyAt (s : State) (l : Loc) : State :=
@@ -440,7 +442,7 @@ def run (s : State) : List Op → State
 def initState (cfg : Cfg) (tyS tyL : Nat) : State :=
   { cfg := cfg, wr := fun _ => none, blk := fun _ => deadBlock, nblk := 0,
     env := fun k => if k = 0 then some ⟨0, 100, tyS⟩ else if k = 1 then some ⟨1, 101, tyL⟩ else none,
-    nextId := 2, dcnt := fun _ => 0,
+    nextId := 2, ccnt := (fun id => if id < 2 then 1 else 0), dcnt := fun _ => 0,
     where_ := fun id => if id = 0 then some (.env 0) else if id = 1 then some (.env 1) else none,
     err := none, log := [] }
 
@@ -459,7 +461,7 @@ def countIf (n : Nat) (p : Nat → Bool) : Nat := ((List.range n).filter p).leng
 
 /-- ids whose destruction count is not exactly one / blocks still live or freed by an unequal
     allocator -/
-def badIds (s : State) : Nat := countIf s.nextId fun id => s.dcnt id != 1
+def badIds (s : State) : Nat := countIf s.nextId fun id => s.dcnt id != 1 || s.ccnt id != 1
 def badBlocks (s : State) : Nat :=
   countIf s.nblk fun b => (s.blk b).live ||
     (match (s.blk b).freedBy with | some a => cls a != cls (s.blk b).alloc | none => true)
